@@ -1,3 +1,69 @@
-From MW Require Import Num.
-Theorem placeholder : True. Proof. exact I. Qed.
-Print Assumptions placeholder.
+(*  C05 — Results do not depend on n_jobs, backend or scheduling.
+   
+    PROVED:
+     * _effective_jobs is always between 1 and the number of rows for every n_jobs <> 0;
+     * _partition_contexts is an ordered exact cover: the chunks concatenate to the batch, there are exactly
+       n_jobs of them, none is empty, their sizes differ by at most one (for EVERY n and n_jobs);
+     * a per-row function evaluated chunk by chunk over ANY split into consecutive chunks (not only the one the
+       code picks) gives the list obtained on the whole batch;
+     * Radius / KNearest / LSHNearest with a context-free learning policy: _parallel_predict returns the same
+       list for EVERY partition of the rows into consecutive chunks, although each chunk threads one private
+       deep copy of the learning policy through its rows (the proof shows that what a row leaves behind in that
+       copy never reaches the next row's answer: fit forgets, and Thompson's stored sample is never read).
+    ..._partial: what the model cannot exhibit is named in DESIGN.md: OS scheduling inside joblib, process
+    boundaries, and the completion order of the shared-memory fit tasks (checked by permuting the tasks on the
+    implementation). TreeBandit (finding D7) and LinTS under a neighbourhood (finding D8) are refuted on the code. *)
+From Coq Require Import List ZArith Bool Arith QArith Qcanon.
+From MW Require Import Num Assoc AssocFacts Rng Par CF CFInv CFClean CFForget CFSpec Matrix Lin Warm WarmInv Nbr NbrFacts NbrIndep Clu Tree Mab FacadeCF FacadeArms NumLaws QcInst.
+Import ListNotations.
+
+Theorem C05_effective_jobs_in_range :
+  forall cpu size n_jobs : Z,
+  (1 <= cpu)%Z -> (1 <= size)%Z -> n_jobs <> 0%Z -> (1 <= effective_jobs cpu size n_jobs <= size)%Z.
+Proof. exact @effective_jobs_range. Qed.
+Print Assumptions C05_effective_jobs_in_range.
+
+Theorem C05_partition_is_ordered_exact_cover :
+  forall (T : Type) (l : list T) (j : nat),
+  (1 <= j)%nat ->
+  concat (chunks (partition_sizes (length l) j) l) = l /\
+  length (chunks (partition_sizes (length l) j) l) = j.
+Proof. exact @partition_exact_cover. Qed.
+Print Assumptions C05_partition_is_ordered_exact_cover.
+
+Theorem C05_partition_chunks_nonempty :
+  forall n j : nat,
+  (1 <= j)%nat -> (j <= n)%nat -> Forall (fun s : nat => (1 <= s)%nat) (partition_sizes n j).
+Proof. exact @partition_sizes_positive. Qed.
+Print Assumptions C05_partition_chunks_nonempty.
+
+Theorem C05_partition_balanced :
+  forall n j : nat,
+  (1 <= j)%nat -> Forall (fun s : nat => (n / j <= s <= n / j + 1)%nat) (partition_sizes n j).
+Proof. exact @partition_sizes_balanced. Qed.
+Print Assumptions C05_partition_balanced.
+
+Theorem C05_rowwise_function_any_split :
+  forall (T U : Type) (f : T -> U) (sizes : list nat) (l : list T),
+  sum_list sizes = length l -> concat (map (map f) (chunks sizes l)) = map f l.
+Proof. exact @map_chunks_concat. Qed.
+Print Assumptions C05_rowwise_function_any_split.
+
+Theorem C05_neighbourhood_predict_independent_of_partition_partial :
+  forall (R A G : Type) (N : Num R) (aeqb : A -> A -> bool) (RG : RngOps R G),
+  (forall x y : A, aeqb x y = true <-> x = y) ->
+  rng_lengths_ok RG ->
+  forall (s : (@nbr R A G)) (t : (@cf R A)) (g : G) (cx : list (list R)) (orcs : list (list nat)) 
+    (sizes : list nat) (p : bool),
+  n_lp s = LCf t ->
+  keys_ok t ->
+  clean N t ->
+  rng_z_lengths_ok RG ->
+  sum_list sizes = length cx ->
+  nbr_predict N aeqb RG s g cx orcs sizes p = nbr_predict N aeqb RG s g cx orcs [length cx] p.
+Proof. exact @nbr_predict_partition_independent. Qed.
+Print Assumptions C05_neighbourhood_predict_independent_of_partition_partial.
+
+Example C05_partition_example : partition_sizes 7 3 = [3; 2; 2]%nat /\ starts (partition_sizes 7 3) = [0; 3; 5; 7]%nat.
+Proof. split; reflexivity. Qed.
+
